@@ -32,7 +32,7 @@ def make_call(inst: Instance, kind: str, selection: Optional[dict], args: tuple,
     if selection:
         for key, name in (("T", "target_nodes"), ("X", "exclude_nodes"), ("R", "root_nodes")):
             if selection.get(key) is not None:
-                kw[name] = [ids[i] for i in selection[key]]
+                kw[name] = [(prog.nodes[i].tag if selection.get("by_tag") and prog.nodes[i].tag is not None else ids[i]) for i in selection[key]]
     if kind == "call":
         f = lambda: d(*args)  # noqa: E731
     elif kind == "executor":
